@@ -9,12 +9,27 @@ Sub-checks
                 with tiny GA budgets: configuration derived from the reported solution; multi-objective choice =
                 argmax of the declared preference transformation over the returned front, and non-dominated
 
+  mate_trunc    OHV / UC mate selection (cross = the candidate) with the exact sorting optimiser: the chosen crosses are
+                the best candidate crosses by a criterion recomputed from its definition (OHV: ploidy x sum over blocks of
+                the best block value among the parents' phases, one block per chromosome; UC: parental mean + i x s.d. of
+                the DH progeny from the pedigree enumerator of pbt.oracles), permutation equivariance, cross map, table
+  mate_trunc_large   the same clauses on a few fixed large populations (candidate-cross counts on both sides of 1024,
+                2048: the protocol evaluates crosses in blocks of 1024); most of them in the thorough tier
+
+Histories: select_trunc, select_ga and mate_trunc drive ONE protocol object through up to three uses ("generations"):
+between uses public attributes are reassigned through their setters (ncross, nparent, nmating, nprogeny, obj_wt,
+unscale, unique_parents, nhaploblk, upper_percentile, transformation kwargs, ndset_wt) and the population is kept (same
+objects), replaced by one of the same size, or by one of another size.  Every clause is checked after every use
+against the settings and population in force at that use.
+
 Oracles: counting / brute-force exchange scans / itertools cross maps / Python-loop criteria.  The protocol is
 never called a second time as its own oracle (the second call in select_trunc is the metamorphic relabelled run).
 """
 import contextlib
 import itertools
 import math
+import os
+import statistics
 from collections import Counter
 
 import numpy
@@ -22,6 +37,7 @@ from hypothesis import strategies as st
 
 from pbt import compat  # noqa: F401
 from pbt.core import SubCheck
+from pbt.oracles import pedigree2 as P
 
 from pybrops.popgen.gmat.DensePhasedGenotypeMatrix import DensePhasedGenotypeMatrix
 from pybrops.popgen.gmat.DenseGenotypeMatrix import DenseGenotypeMatrix
@@ -77,6 +93,23 @@ ASSUMPTIONS = [
     "miscout['mosoln'].soln_obj; any maximiser is accepted when several rows tie; the bundled default transformation "
     "(distance to a vector after min-max scaling) is undefined (NaN) when an objective is constant over the front "
     "(C19 finding) -- those fronts are labelled and only the argmax clause is skipped for them",
+    "mate selection with the sorting optimiser (mate_trunc): the candidates are the rows of the cross map; 'the best candidates "
+    "by their criterion' = the ncross candidate crosses with the smallest declared single-cross objective obj_wt * trans(-value). "
+    "OHV value of a cross from its definition: ploidy * sum over haplotype blocks of the largest block value (sum of allele * "
+    "effect over the block's markers) among both phases of all parents of the cross; nhaploblk is set to the number of "
+    "chromosomes, the one layout that is fixed by the documentation (every chromosome gets at least one block) -- finer "
+    "layouts are the subject of C18.  UC value of a two-way cross: mean genomic value (intercept included) of the two parents "
+    "+ pdf(ppf(1-p))/p * s.d. of the DH progeny of their F1, the variance taken from the pedigree enumerator of "
+    "pbt.oracles.pedigree2 (the C12 oracle, written from the mating protocols); UC populations consist of inbred lines, as the "
+    "two-way DH variance factory presupposes.  Values are compared as intervals (OHV: 64*eps*2*sum|u|; UC: relative 1e-11 of "
+    "4*(sum|u|)^2 on the variance, 1e-9 relative on the value): a violation needs a chosen cross whose lower bound exceeds "
+    "the upper bound of an unchosen one, so ties and near-ties are never reported; the permuted run is compared by cross sets "
+    "only when the best set is unambiguous under these intervals.  OCS has no exact optimiser bundled (its objective is not "
+    "additive over members), so it has no truncation clause",
+    "re-use of one protocol object: settings are reassigned through public setters only; after ncross changes, nmating and "
+    "nprogeny are assigned again (their setters expand a scalar to the ncross in force at assignment time); for OHV nhaploblk "
+    "is reassigned when the next population has a different number of chromosomes.  'same' population = the very same "
+    "genotype / breeding-value / model objects are passed again",
 ]
 
 EPS = 2.220446049250313e-16
@@ -245,7 +278,8 @@ def check_mate_table(ctx, enc, decn, rows, xmap, prefix):
     for r in rows:
         hits = [d for d in range(len(xm)) if xm[d] == r]
         ctx.check(len(hits) >= 1, prefix + ".row_not_in_cross_map", lambda: "row %s of %s is no row of the cross map" % (r, rows))
-        named[hits[0]] += 1
+        if hits:
+            named[hits[0]] += 1
     check_multiplicity(ctx, enc, decn, named, len(rows), prefix, "crosses %s" % rows)
 
 
@@ -367,16 +401,42 @@ def population(draw, nmin, nmax=10, traits=(1, 2)):
             "beta": [draw(st.sampled_from([0.0, 1.0, -2.5])) for _ in range(t)]}
 
 
+def expand_pop(pop):
+    """populations too large to be listed in a case are stored as sizes + generator seeds; expanded here to the listed form"""
+    if "hapseed" not in pop:
+        return pop
+    n, p, t = pop["n"], pop["p"], pop["t"]
+    rng = numpy.random.default_rng(int(pop["hapseed"]))
+    h0 = rng.integers(0, 2, size=n * p)
+    h1 = h0.copy() if pop.get("inbred") else rng.integers(0, 2, size=n * p)
+    out = dict(pop)
+    out["hap"] = [int(v) for v in h0] + [int(v) for v in h1]
+    out["names"] = [int(v) for v in rng.permutation(2 * n)[:n]]
+    out["grp"] = [int(v) for v in rng.integers(1, 4, size=n)]
+    out["u"] = [float(v) for v in numpy.round(rng.normal(size=p * t) * 64.0) / 64.0]
+    return out
+
+
 def build_world(pop, order=None):
     n, p, t = pop["n"], pop["p"], pop["t"]
     order = list(range(n)) if order is None else list(order)
     hap = numpy.array(pop["hap"], dtype="int8").reshape(2, n, p)[:, order, :]
     names = numpy.array(["L%02d" % pop["names"][i] for i in order], dtype=object)
     grp = numpy.array([pop["grp"][i] for i in order], dtype="int64")
-    half = max(1, p // 2)
-    chrom = [1] * half + [2] * (p - half)
-    genpos = [0.1 * (j if j < half else j - half) for j in range(p)]
-    xo = [0.5 if (j == 0 or j == half) else 0.5 * (1.0 - math.exp(-2.0 * 0.1)) for j in range(p)]
+    if "runs" in pop:
+        # explicit chromosome layout: run lengths + genetic positions (ascending within a chromosome)
+        chrom = [c + 1 for c, rl in enumerate(pop["runs"]) for _ in range(rl)]
+        genpos = [float(v) for v in pop["genpos"]]
+        xo = [float(v) for v in P.xoprob_from_genpos(chrom, genpos)]
+        pop = dict(pop)
+        pop.setdefault("bv", [0.0] * (n * t))
+        pop.setdefault("loc", [0.0] * t)
+        pop.setdefault("scale", [1.0] * t)
+    else:
+        half = max(1, p // 2)
+        chrom = [1] * half + [2] * (p - half)
+        genpos = [0.1 * (j if j < half else j - half) for j in range(p)]
+        xo = [0.5 if (j == 0 or j == half) else 0.5 * (1.0 - math.exp(-2.0 * 0.1)) for j in range(p)]
     meta = dict(taxa=names, taxa_grp=grp, vrnt_chrgrp=numpy.array(chrom, dtype="int64"),
                 vrnt_phypos=numpy.arange(1, p + 1, dtype="int64") * 10, vrnt_genpos=numpy.array(genpos, dtype=float),
                 vrnt_xoprob=numpy.array(xo, dtype=float))
@@ -414,22 +474,82 @@ def criterion_table(pop, source, unscale):
 
 
 # =====================================================================================================================
+# histories: one protocol object, several uses
+# =====================================================================================================================
+def _nm(v):
+    return v if isinstance(v, int) else numpy.array(v, dtype="int64")
+
+
+@st.composite
+def next_population(draw, prev_pop, need, span, traits, make=None):
+    """population of a later use of the same protocol object: the same one (same objects are passed again), a new one of
+    the same size, or a new one of any admissible size.  Returns (mode, population)."""
+    make = make or (lambda lo, hi: population(lo, hi, traits=traits))
+    mode = draw(st.sampled_from(["same", "same_size", "same_size", "new"]))
+    if prev_pop["n"] < need:
+        mode = "new"
+    if mode == "same":
+        return mode, prev_pop
+    if mode == "same_size":
+        return mode, draw(make(prev_pop["n"], prev_pop["n"]))
+    return mode, draw(make(need, need + span))
+
+
+def reuse_labels(ctx, k, prev, cur, names):
+    """classification of the step between two uses of one protocol object (measures what the history generator produces)"""
+    ctx.label("reuse:use_%d" % min(k + 1, 3))
+    changed = [a for a in names if prev.get(a) != cur.get(a)]
+    for a in changed:
+        ctx.label("reuse:changed_" + a)
+    ctx.label("reuse:no_setting_changed", not changed)
+    ctx.label("reuse:population_" + cur.get("pop_mode", "new"))
+    ctx.label("reuse:same_ntaxa", prev["pop"]["n"] == cur["pop"]["n"])
+    ctx.label("reuse:same_ntaxa_and_nparent_other_setting_changed",
+              prev["pop"]["n"] == cur["pop"]["n"] and prev["nparent"] == cur["nparent"] and bool(changed))
+
+
+# =====================================================================================================================
 # sub-check select_trunc
 # =====================================================================================================================
+TRUNC_SETTINGS = ("ncross", "nparent", "nmating", "nprogeny", "unscale", "lwt", "obj_wt")
+
+
 @st.composite
-def trunc_case(draw):
+def trunc_params(draw, t, prev=None):
     ncross = draw(st.integers(1, 4))
     nparent = draw(st.integers(1, 3))
-    T = ncross * nparent
-    pop = draw(population(T, T + 5))
-    t = pop["t"]
+    s = {"ncross": ncross, "nparent": nparent, "nmating": draw(st.integers(1, 2)), "nprogeny": draw(st.integers(1, 6)),
+         "unscale": draw(st.booleans()), "lwt": [draw(st.sampled_from([1.0, 2.0, 0.5, -1.0])) for _ in range(t)],
+         "obj_wt": draw(st.sampled_from([1.0, 1.0, 1.0, -1.0, 2.0]))}
+    if prev is not None:
+        keep = draw(st.lists(st.booleans(), min_size=len(TRUNC_SETTINGS), max_size=len(TRUNC_SETTINGS)))
+        for a, kp in zip(TRUNC_SETTINGS, keep):
+            if kp:
+                s[a] = prev[a]
+            elif a == "unscale":
+                s[a] = not prev[a]
+    T = s["ncross"] * s["nparent"]
+    if prev is None:
+        s["pop"] = draw(population(T, T + 5, traits=(t,)))
+    else:
+        s["pop_mode"], s["pop"] = draw(next_population(prev["pop"], T, 5, (t,)))
+    s["perm"] = prev["perm"] if s.get("pop_mode") == "same" else list(draw(st.permutations(list(range(s["pop"]["n"])))))
+    return s
+
+
+@st.composite
+def trunc_case(draw):
+    t = draw(st.sampled_from([1, 2]))
+    first = draw(trunc_params(t))
     combine = "identity" if t == 1 else draw(st.sampled_from(["sum", "dot"]))
-    return {"source": draw(st.sampled_from(["ebv", "ebv", "gebv"])), "pop": pop, "ncross": ncross, "nparent": nparent,
-            "nmating": draw(st.integers(1, 2)), "nprogeny": draw(st.integers(1, 6)),
-            "unscale": draw(st.booleans()), "combine": combine,
-            "lwt": [draw(st.sampled_from([1.0, 2.0, 0.5, -1.0])) for _ in range(t)],
-            "obj_wt": draw(st.sampled_from([1.0, 1.0, 1.0, -1.0, 2.0])),
-            "perm": list(draw(st.permutations(list(range(pop["n"]))))), "seed": draw(st.integers(0, 2 ** 31 - 1))}
+    case = dict(first)
+    case.update({"source": draw(st.sampled_from(["ebv", "ebv", "gebv"])), "combine": combine, "seed": draw(st.integers(0, 2 ** 31 - 1))})
+    later, prev = [], first
+    for _ in range(draw(st.sampled_from([0, 0, 1, 1, 2]))):
+        prev = draw(trunc_params(t, prev))
+        later.append(prev)
+    case["later"] = later
+    return case
 
 
 def _trunc_protocol(case):
@@ -446,7 +566,39 @@ def _trunc_protocol(case):
     return klass(**kw)
 
 
+def _trunc_reassign(prot, case, prev, cur):
+    """public setters only, and only for what differs from the previous use; nmating / nprogeny are given again after
+    ncross (their setters size a scalar by the ncross in force)"""
+    if cur["ncross"] != prev["ncross"]:
+        prot.ncross = cur["ncross"]
+    if cur["nparent"] != prev["nparent"]:
+        prot.nparent = cur["nparent"]
+    if cur["nmating"] != prev["nmating"] or cur["ncross"] != prev["ncross"]:
+        prot.nmating = _nm(cur["nmating"])
+    if cur["nprogeny"] != prev["nprogeny"] or cur["ncross"] != prev["ncross"]:
+        prot.nprogeny = _nm(cur["nprogeny"])
+    if cur["unscale"] != prev["unscale"] and case["source"] == "ebv":
+        prot.unscale = cur["unscale"]
+    if cur["lwt"] != prev["lwt"] and case["combine"] == "dot":
+        prot.obj_trans_kwargs = {"latentvec_wt": numpy.array(cur["lwt"], dtype=float)}
+    if cur["obj_wt"] != prev["obj_wt"]:
+        prot.obj_wt = cur["obj_wt"]
+
+
 def check_select_trunc(case, ctx):
+    stages = [case] + list(case.get("later", []))
+    ctx.label("source=" + case["source"])
+    ctx.label("combine=" + case["combine"])
+    prots, worlds = {}, {}
+    for k, cur in enumerate(stages):
+        flat = dict(case)
+        flat.update(cur)
+        if k:
+            reuse_labels(ctx, k, stages[k - 1], cur, TRUNC_SETTINGS)
+        _trunc_use(flat, ctx, k, stages[k - 1] if k else None, prots, worlds)
+
+
+def _trunc_use(case, ctx, k, prev, prots, worlds):
     pop = case["pop"]
     n, t = pop["n"], pop["t"]
     T = case["ncross"] * case["nparent"]
@@ -458,42 +610,48 @@ def check_select_trunc(case, ctx):
     mag = max(abs(case["obj_wt"]) * math.fsum(abs(lw[j] * tab[i][j]) for j in range(t)) for i in range(n))
     tol = 64 * EPS * max(mag, 1e-300) * max(1, pop["p"])
     srt = sorted(crit)
-    ctx.label("source=" + case["source"])
-    ctx.label("combine=" + case["combine"])
     ctx.label("unscale", unscale)
     ctx.label("tie_at_truncation_point", T < n and abs(srt[T - 1] - srt[T]) <= tol)
     ctx.label("selects_everyone", T == n)
     ctx.label("negative_obj_wt", case["obj_wt"] < 0)
     ctx.nontrivial(T >= 2 and n > T and len(set(crit)) >= 3)
+    use = "" if k == 0 else " (use %d of the same protocol object)" % (k + 1)
 
     chosen_names = []
     for tag, order in (("passed", list(range(n))), ("permuted", case["perm"])):
-        w = build_world(pop, order)
-        prot = _trunc_protocol(case)
+        if k and case.get("pop_mode") == "same":
+            w = worlds[tag]
+        else:
+            w = worlds[tag] = build_world(pop, order)
+        if k == 0:
+            prot = prots[tag] = _trunc_protocol(case)
+        else:
+            prot = prots[tag]
+            _trunc_reassign(prot, case, prev, case)
         misc = {}
-        numpy.random.seed(case["seed"] % (2 ** 32))
-        cfg = prot.select(pgmat=w["pg"], gmat=w["gm"], ptdf=None, bvmat=w["bv"], gpmod=w["gp"], t_cur=0, t_max=5, miscout=misc)
+        numpy.random.seed((case["seed"] + k) % (2 ** 32))
+        cfg = prot.select(pgmat=w["pg"], gmat=w["gm"], ptdf=None, bvmat=w["bv"], gpmod=w["gp"], t_cur=k, t_max=5, miscout=misc)
         ctx.check(isinstance(cfg, SubsetSelectionConfiguration), "select.configuration_type", lambda: type(cfg).__name__)
         rows = check_header(ctx, cfg, w["pg"], case["ncross"], case["nparent"], case["nmating"], case["nprogeny"], "select")
         decn = [int(e) for e in cfg.xconfig_decn.tolist()]
         ctx.check("sosoln" in misc and numpy.array_equal(misc["sosoln"].soln_decn[0], cfg.xconfig_decn), "select.decision_is_not_the_reported_solution",
                   lambda: "xconfig_decn %s, sosoln %s" % (decn, misc.get("sosoln") and misc["sosoln"].soln_decn.tolist()))
         ctx.check(len(decn) == T and len(set(decn)) == T and all(0 <= e < n for e in decn), "select.decision_not_a_subset_of_the_population",
-                  lambda: "decision %s, T=%d, ntaxa=%d" % (decn, T, n))
+                  lambda: "decision %s, T=%d, ntaxa=%d%s" % (decn, T, n, use))
         check_table(ctx, "subset", decn, rows, "select")
         # truncation: chosen original individuals are the T smallest single-member objectives
         orig = [order[e] for e in decn]
         inside = max(crit[i] for i in orig)
         outside = [crit[i] for i in range(n) if i not in set(orig)]
         ctx.check(not outside or inside <= min(outside) + tol, "trunc.chosen_are_not_the_best_by_criterion",
-                  lambda: "%s population: chose individuals %s (objective values %s) while unchosen %s has %r; all values %s" % (
-                      tag, orig, [crit[i] for i in orig], [i for i in range(n) if i not in set(orig) and crit[i] < inside - tol][:3],
+                  lambda: "%s population%s: chose individuals %s (objective values %s) while unchosen %s has %r; all values %s" % (
+                      tag, use, orig, [crit[i] for i in orig], [i for i in range(n) if i not in set(orig) and crit[i] < inside - tol][:3],
                       min(outside), crit))
         # reported objective equals the harness value for the chosen set (mean over the chosen, weights applied)
         want = math.fsum(crit[i] for i in orig) / T
         got = float(misc["sosoln"].soln_obj[0][0])
         ctx.check(abs(got - want) <= 8 * tol, "trunc.reported_objective_differs_from_criterion",
-                  lambda: "reported %r, harness %r for individuals %s" % (got, want, orig))
+                  lambda: "reported %r, harness %r for individuals %s%s" % (got, want, orig, use))
         chosen_names.append(sorted(w["names"][e] for e in decn))
         if tag == "passed":
             vals0 = sorted(crit[i] for i in orig)
@@ -502,10 +660,10 @@ def check_select_trunc(case, ctx):
     gaps_clear = all(abs(srt[i + 1] - srt[i]) > 4 * tol for i in range(n - 1))
     ctx.label("all_criterion_values_distinct", gaps_clear)
     ctx.check(all(abs(a - b) <= tol for a, b in zip(vals0, vals1)), "trunc.permutation_changes_selected_values",
-              lambda: "selected objective values %s vs %s after permuting the population by %s" % (vals0, vals1, case["perm"]))
+              lambda: "selected objective values %s vs %s after permuting the population by %s%s" % (vals0, vals1, case["perm"], use))
     if gaps_clear:
         ctx.check(chosen_names[0] == chosen_names[1], "trunc.permutation_changes_selected_individuals",
-                  lambda: "selected %s, after permuting the population %s" % (chosen_names[0], chosen_names[1]))
+                  lambda: "selected %s, after permuting the population %s%s" % (chosen_names[0], chosen_names[1], use))
 
 
 # =====================================================================================================================
@@ -522,31 +680,66 @@ def _pref_sum(mat, pw=None, **kwargs):
     return numpy.array([math.fsum(float(v) * w for v, w in zip(row, pw)) for row in numpy.asarray(mat)], dtype=float)
 
 
+GA_SETTINGS = ("ncross", "nparent", "nmating", "nprogeny", "unscale", "obj_wt", "ndset_wt", "pw", "unique", "upct")
+
+
 @st.composite
-def ga_case(draw):
-    proto = draw(st.sampled_from(PROTOCOLS + ["ebv_subset", "ebv_real", "ohv_mate"]))
+def ga_params(draw, proto, t, nobj, prev=None):
+    """design and settings of one use of a protocol object (prev = those of the previous use of the same object)"""
     mate = proto in ("ohv_mate", "uc_mate")
     ncross = draw(st.integers(1, 4))
     nparent = 2 if proto == "uc_mate" else draw(st.integers(1, 3))
-    T = ncross * nparent
-    pop = draw(population(max(T, nparent + 1, 3), max(T, nparent + 1, 3) + 4, traits=(1, 2, 2, 2)))
-    if proto in ("ocs_subset", "ocs_real"):
-        nobj = draw(st.sampled_from([1 + pop["t"], 1 + pop["t"], 1]))
-    elif proto == "random_subset":
-        nobj = pop["t"]
-    else:
-        nobj = draw(st.sampled_from([1, pop["t"], pop["t"]])) if pop["t"] > 1 else 1
-    case = {"proto": proto, "pop": pop, "ncross": ncross, "nparent": nparent,
-            "nmating": draw(st.one_of(st.integers(1, 2), st.lists(st.integers(1, 3), min_size=ncross, max_size=ncross))),
-            "nprogeny": draw(st.integers(1, 6)), "nobj": nobj, "unscale": draw(st.booleans()),
-            "obj_wt": [draw(st.sampled_from([1.0, 1.0, -1.0, 2.0])) for _ in range(nobj)],
-            "ngen": draw(st.integers(1, 4)), "popsize": draw(st.integers(4, 12)), "seed": draw(st.integers(0, 2 ** 31 - 1)),
-            "pref": draw(st.sampled_from(["default", "default", "sum", "sum"])),
-            "ndset_wt": draw(st.sampled_from([1.0, 1.0, -1.0, 2.5])),
-            "pw": [draw(st.sampled_from([1.0, 0.5, 2.0, -1.0, 0.0])) for _ in range(nobj)]}
+    s = {"ncross": ncross, "nparent": nparent, "nprogeny": draw(st.integers(1, 6)), "unscale": draw(st.booleans()),
+         "obj_wt": [draw(st.sampled_from([1.0, 1.0, -1.0, 2.0])) for _ in range(nobj)],
+         "ndset_wt": draw(st.sampled_from([1.0, 1.0, -1.0, 2.5])),
+         "pw": [draw(st.sampled_from([1.0, 0.5, 2.0, -1.0, 0.0])) for _ in range(nobj)]}
     if mate:
-        case["unique"] = draw(st.booleans()) if proto == "ohv_mate" else True
+        s["unique"] = draw(st.booleans()) if (proto == "ohv_mate" or prev is not None) else True
+        s["upct"] = 0.1 if prev is None else draw(st.sampled_from([0.1, 0.3, 0.02]))
+    if prev is not None:
+        names = [a for a in GA_SETTINGS if a in s]
+        keep = draw(st.lists(st.booleans(), min_size=len(names), max_size=len(names)))
+        for a, kp in zip(names, keep):
+            if kp:
+                s[a] = prev[a]
+            elif a in ("unscale", "unique"):
+                s[a] = not prev[a]
+    ncross = s["ncross"]
+    s["nmating"] = draw(st.one_of(st.integers(1, 2), st.lists(st.integers(1, 3), min_size=ncross, max_size=ncross)))
+    if prev is not None and draw(st.booleans()) and (isinstance(prev["nmating"], int) or len(prev["nmating"]) == ncross):
+        s["nmating"] = prev["nmating"]
+    T = s["ncross"] * s["nparent"]
+    need = max(T, s["nparent"] + 1, 3)
+    if prev is None:
+        s["pop"] = draw(population(need, need + 4, traits=(t,)))
+    else:
+        s["pop_mode"], s["pop"] = draw(next_population(prev["pop"], need, 4, (t,)))
+    return s
+
+
+@st.composite
+def ga_case(draw):
+    proto = draw(st.sampled_from(PROTOCOLS + ["ebv_subset", "ebv_real", "ohv_mate", "uc_mate"]))
+    mate = proto in ("ohv_mate", "uc_mate")
+    t = draw(st.sampled_from([1, 2, 2, 2]))
+    if proto in ("ocs_subset", "ocs_real"):
+        nobj = draw(st.sampled_from([1 + t, 1 + t, 1]))
+    elif proto == "random_subset":
+        nobj = t
+    else:
+        nobj = draw(st.sampled_from([1, t, t])) if t > 1 else 1
+    first = draw(ga_params(proto, t, nobj))
+    case = dict(first)
+    case.update({"proto": proto, "nobj": nobj,
+                 "ngen": draw(st.integers(1, 4)), "popsize": draw(st.integers(4, 12)), "seed": draw(st.integers(0, 2 ** 31 - 1)),
+                 "pref": draw(st.sampled_from(["default", "default", "sum", "sum"]))})
+    if mate:
         case["nhaploblk"] = 2          # one block per chromosome of the generated map (fewer is a documented ValueError)
+    later, prev = [], first
+    for _ in range(draw(st.sampled_from([0, 0, 1, 1, 2]))):
+        prev = draw(ga_params(proto, t, nobj, prev))
+        later.append(prev)
+    case["later"] = later
     return case
 
 
@@ -580,25 +773,92 @@ def _ga_protocol(case):
     if proto == "ohv_mate":
         return OptimalHaploidValueSubsetSelection(ntrait=t, nhaploblk=case["nhaploblk"], unique_parents=case["unique"], **kw)
     if proto == "uc_mate":
-        return UsefulnessCriterionSubsetSelection(ntrait=t, nself=0, upper_percentile=0.1, vmatfcty=DenseTwoWayDHAdditiveGeneticVarianceMatrixFactory(),
-                                                  gmapfn=HaldaneMapFunction(), unique_parents=True, **kw)
+        return UsefulnessCriterionSubsetSelection(ntrait=t, nself=0, upper_percentile=case.get("upct", 0.1),
+                                                  vmatfcty=DenseTwoWayDHAdditiveGeneticVarianceMatrixFactory(),
+                                                  gmapfn=HaldaneMapFunction(), unique_parents=case.get("unique", True), **kw)
     return RandomSubsetSelection(ntrait=t, **kw)
 
 
+def check_mate_config(ctx, soln, rows, dl, n, nparent, unique, evidence):
+    """mate-selection encodings: the decision names rows of the cross map, which lists every candidate cross of the
+    population under the unique_parents setting in force; the table consists of exactly the named crosses"""
+    xmap = soln.decn_space_xmap
+    want = ref_xmap(n, nparent, unique)
+    got = [list(int(e) for e in r) for r in numpy.asarray(xmap).tolist()]
+    ctx.check(sorted(map(tuple, got)) == sorted(map(tuple, want)) and len(set(map(tuple, got))) == len(got), "select.cross_map_is_not_all_combinations",
+              lambda: "cross map %s for ntaxa=%d nparent=%d unique_parents=%s" % (got, n, nparent, unique))
+    ctx.check(all(len(set(r)) == len(r) for r in rows) or not unique, "select.self_cross_with_unique_parents", evidence)
+    ctx.check(all(0 <= int(e) < len(got) for e in dl), "select.decision_names_no_row_of_the_cross_map", evidence)
+    if not all(0 <= int(e) < len(got) for e in dl):
+        return got
+    for r, d in zip(sorted(rows), sorted(got[int(e)] for e in dl)):
+        ctx.check(r == d, "select.crosses_differ_from_those_named_by_decision",
+                  lambda: "decision %s names crosses %s, table is %s" % (dl, [got[int(e)] for e in dl], rows))
+    check_mate_table(ctx, "subset", [int(e) for e in dl], rows, xmap, "select")
+    return got
+
+
+def _ga_reassign(prot, case, prev, cur):
+    """public setters only, and only for what differs from the previous use; nmating / nprogeny are given again after
+    ncross (their setters size a scalar by the ncross in force)"""
+    proto = case["proto"]
+    if cur["ncross"] != prev["ncross"]:
+        prot.ncross = cur["ncross"]
+    if cur["nparent"] != prev["nparent"]:
+        prot.nparent = cur["nparent"]
+    if cur["nmating"] != prev["nmating"] or cur["ncross"] != prev["ncross"]:
+        prot.nmating = _nm(cur["nmating"])
+    if cur["nprogeny"] != prev["nprogeny"] or cur["ncross"] != prev["ncross"]:
+        prot.nprogeny = _nm(cur["nprogeny"])
+    if cur["unscale"] != prev["unscale"] and (proto.startswith("ebv") or proto.startswith("ocs")):
+        prot.unscale = cur["unscale"]
+    if cur["obj_wt"] != prev["obj_wt"]:
+        prot.obj_wt = numpy.array(cur["obj_wt"], dtype=float)
+    if cur["ndset_wt"] != prev["ndset_wt"]:
+        prot.ndset_wt = cur["ndset_wt"]
+    if cur["pw"] != prev["pw"] and case["nobj"] > 1 and case["pref"] == "sum":
+        prot.ndset_trans_kwargs = {"pw": list(cur["pw"])}
+    if proto in ("ohv_mate", "uc_mate") and cur["unique"] != prev["unique"]:
+        prot.unique_parents = cur["unique"]
+    if proto == "uc_mate" and cur["upct"] != prev["upct"]:
+        prot.upper_percentile = cur["upct"]
+
+
 def check_select_ga(case, ctx):
+    stages = [case] + list(case.get("later", []))
+    ctx.label("proto=" + case["proto"])
+    ctx.label("multiobjective" if case["nobj"] > 1 else "singleobjective")
+    state = {}
+    for k, cur in enumerate(stages):
+        flat = dict(case)
+        flat.update(cur)
+        if k:
+            prev = dict(case)
+            prev.update(stages[k - 1])
+            prev.setdefault("upct", 0.1)
+            flat.setdefault("upct", 0.1)
+            reuse_labels(ctx, k, prev, flat, [a for a in GA_SETTINGS if a in flat])
+            if flat.get("pop_mode") != "same":
+                state["w"] = build_world(flat["pop"])
+            _ga_reassign(state["prot"], flat, prev, flat)
+        else:
+            state["w"] = build_world(flat["pop"])
+            state["prot"] = _ga_protocol(flat)
+        if not _ga_use(flat, ctx, k, state["prot"], state["w"]):
+            return
+
+
+def _ga_use(case, ctx, k, prot, w):
+    """one use of the protocol object; False when the use ended in the (known / cleanly rejected) empty selection"""
     proto, pop = case["proto"], case["pop"]
     enc = ENC[proto]
     mate = proto in ("ohv_mate", "uc_mate")
     n, nobj = pop["n"], case["nobj"]
-    ctx.label("proto=" + proto)
-    ctx.label("multiobjective" if nobj > 1 else "singleobjective")
     ctx.nontrivial(case["ncross"] * case["nparent"] >= 2 and n >= 3)
-    w = build_world(pop)
-    prot = _ga_protocol(case)
     misc = {}
     try:
-        with seeded_entropy(case["seed"]):
-            cfg = prot.select(pgmat=w["pg"], gmat=w["gm"], ptdf=None, bvmat=w["bv"], gpmod=w["gp"], t_cur=0, t_max=5, miscout=misc)
+        with seeded_entropy(case["seed"] + k):
+            cfg = prot.select(pgmat=w["pg"], gmat=w["gm"], ptdf=None, bvmat=w["bv"], gpmod=w["gp"], t_cur=k, t_max=5, miscout=misc)
     except ValueError as e:
         # F-C07-a: the unconstrained binary / integer problems score the all-zero decision ("select nobody") as 0, which
         # beats every real selection when the criterion values are unfavourable; select() then cannot build a table
@@ -606,20 +866,20 @@ def check_select_ga(case, ctx):
         empty = soln is not None and any(not numpy.asarray(r).any() for r in numpy.asarray(soln.soln_decn))
         if enc in ("binary", "integer") and empty and "selects no individuals" in str(e):
             ctx.label("clean_rejection_of_empty_selection")     # the repaired behaviour proposed in F-C07-a: a named, documented error
-            return
+            return False
         if enc in ("binary", "integer") and empty and "could not broadcast input array from shape (0,)" in str(e):
             ctx.label("optimiser_selected_nobody")
             if not ctx.known("F-C07-a", enc in ("binary", "integer")):
                 ctx.fail("select.crash_when_solution_selects_nobody", "%s.select raised ValueError: %s; solution decn %s obj %s" % (
                     type(prot).__name__, e, numpy.asarray(soln.soln_decn).tolist(), numpy.asarray(soln.soln_obj).tolist()))
-            return
+            return False
         raise
     rows = check_header(ctx, cfg, w["pg"], case["ncross"], case["nparent"], case["nmating"], case["nprogeny"], "select")
     soln = misc.get("sosoln") if nobj == 1 else misc.get("mosoln")
     ctx.check(soln is not None and soln.nsoln >= 1, "select.no_solution_in_miscout", lambda: str(sorted(misc)))
     decn = cfg.xconfig_decn
-    evidence = lambda: "xconfig %s, xconfig_decn %s, solution decn %s obj %s" % (      # noqa: E731
-        rows, decn.tolist(), numpy.asarray(soln.soln_decn).tolist(), numpy.asarray(soln.soln_obj).tolist())
+    evidence = lambda: "use %d of the protocol object: xconfig %s, xconfig_decn %s, solution decn %s obj %s" % (      # noqa: E731
+        k + 1, rows, decn.tolist(), numpy.asarray(soln.soln_decn).tolist(), numpy.asarray(soln.soln_obj).tolist())
     match = [i for i in range(soln.nsoln) if numpy.array_equal(numpy.asarray(soln.soln_decn[i]), decn)]
     ctx.check(len(match) >= 1, "select.decision_is_not_a_reported_solution", evidence)
     if nobj == 1:
@@ -651,20 +911,307 @@ def check_select_ga(case, ctx):
     # configuration against the decision
     dl = decn.tolist()
     if mate:
-        xmap = soln.decn_space_xmap
-        want = ref_xmap(n, case["nparent"], case["unique"])
-        got = [list(int(e) for e in r) for r in numpy.asarray(xmap).tolist()]
-        ctx.check(sorted(map(tuple, got)) == sorted(map(tuple, want)) and len(set(map(tuple, got))) == len(got), "select.cross_map_is_not_all_combinations",
-                  lambda: "cross map %s for ntaxa=%d nparent=%d unique_parents=%s" % (got, n, case["nparent"], case["unique"]))
-        ctx.check(all(len(set(r)) == len(r) for r in rows) or not case["unique"], "select.self_cross_with_unique_parents", evidence)
-        for r, d in zip(sorted(rows), sorted(got[int(e)] for e in dl)):
-            ctx.check(r == d, "select.crosses_differ_from_those_named_by_decision",
-                      lambda: "decision %s names crosses %s, table is %s" % (dl, [got[int(e)] for e in dl], rows))
-        check_mate_table(ctx, "subset", [int(e) for e in dl], rows, xmap, "select")
+        check_mate_config(ctx, soln, rows, dl, n, case["nparent"], case["unique"], evidence)
     else:
         if enc == "subset":
             ctx.check(len(set(dl)) == len(dl), "select.decision_repeats_a_member", evidence)
         check_table(ctx, enc, dl, rows, "select")
+    return True
+
+
+# =====================================================================================================================
+# sub-check mate_trunc: the candidates are crosses; exact optimiser => the best crosses by the criterion's definition
+# =====================================================================================================================
+MATE_SETTINGS = ("ncross", "nparent", "nmating", "nprogeny", "unique", "lwt", "obj_wt", "upct")
+
+
+def ncandidates(n, nparent, unique):
+    return math.comb(n, nparent) if unique else math.comb(n + nparent - 1, nparent)
+
+
+assert ncandidates(46, 2, True) == 1035 and ncandidates(45, 2, False) == 1035 and ncandidates(3, 2, False) == len(ref_xmap(3, 2, False))
+
+
+@st.composite
+def mate_population(draw, nmin, nmax, t, inbred):
+    """phased population on 1-3 chromosomes of 1-3 markers with explicit genetic positions; additive effects"""
+    n = draw(st.integers(nmin, max(nmin, nmax)))
+    runs = draw(st.lists(st.integers(1, 3), min_size=1, max_size=3))
+    p = sum(runs)
+    genpos = []
+    for rl in runs:
+        pos = draw(st.sampled_from([0.0, 0.25]))
+        for k in range(rl):
+            if k:
+                pos = pos + draw(st.sampled_from([0.01, 0.1, 0.3, 1.0]))
+            genpos.append(pos)
+    h0 = draw(st.lists(st.integers(0, 1), min_size=n * p, max_size=n * p))
+    h1 = list(h0) if inbred else draw(st.lists(st.integers(0, 1), min_size=n * p, max_size=n * p))
+    if draw(st.sampled_from(["int", "int", "float"])) == "int":
+        u = [float(v) for v in draw(st.lists(st.integers(-3, 3), min_size=p * t, max_size=p * t))]
+    else:
+        u = draw(st.lists(st.floats(-3.0, 3.0, allow_nan=False, allow_infinity=False), min_size=p * t, max_size=p * t))
+    return {"n": n, "p": p, "t": t, "runs": runs, "genpos": genpos, "hap": h0 + h1,
+            "names": draw(st.lists(st.integers(0, 60), min_size=n, max_size=n, unique=True)),
+            "grp": draw(st.lists(st.integers(1, 3), min_size=n, max_size=n)), "u": u,
+            "beta": [draw(st.sampled_from([0.0, 1.0, -2.5])) for _ in range(t)]}
+
+
+@st.composite
+def mate_params(draw, proto, t, prev=None):
+    inbred = proto == "uc"         # the two-way DH variance factory describes crosses of inbred lines
+    make = lambda lo, hi: mate_population(lo, hi, t, inbred)      # noqa: E731
+    s = {}
+    if prev is None:
+        s["pop"] = draw(make(3, 9))
+    else:
+        s["pop_mode"], s["pop"] = draw(next_population(prev["pop"], 3, 6, (t,), make=make))
+    n = s["pop"]["n"]
+    s.update({"nparent": 2 if proto == "uc" else draw(st.integers(1, 3)), "unique": draw(st.booleans()),
+              "nmating": draw(st.integers(1, 2)), "nprogeny": draw(st.integers(1, 6)),
+              "lwt": [draw(st.sampled_from([1.0, 2.0, 0.5, -1.0])) for _ in range(t)],
+              "obj_wt": draw(st.sampled_from([1.0, 1.0, 1.0, -1.0, 2.0])), "upct": draw(st.sampled_from([0.1, 0.1, 0.3, 0.02, 0.5]))})
+    if prev is not None:
+        names = [a for a in MATE_SETTINGS if a != "ncross"]
+        keep = draw(st.lists(st.booleans(), min_size=len(names), max_size=len(names)))
+        for a, kp in zip(names, keep):
+            if kp:
+                s[a] = prev[a]
+            elif a == "unique":
+                s[a] = not prev[a]
+    ncand = ncandidates(n, s["nparent"], s["unique"])
+    s["ncross"] = draw(st.integers(1, min(6, ncand)))
+    if prev is not None and prev["ncross"] <= ncand and draw(st.booleans()):
+        s["ncross"] = prev["ncross"]
+    s["perm"] = prev["perm"] if s.get("pop_mode") == "same" else list(draw(st.permutations(list(range(n)))))
+    return s
+
+
+@st.composite
+def mate_trunc_case(draw):
+    proto = draw(st.sampled_from(["ohv", "uc"]))
+    t = draw(st.sampled_from([1, 1, 2]))
+    first = draw(mate_params(proto, t))
+    case = dict(first)
+    case.update({"proto": proto, "t": t, "combine": "identity" if t == 1 else draw(st.sampled_from(["sum", "dot"])),
+                 "seed": draw(st.integers(0, 2 ** 31 - 1))})
+    later, prev = [], first
+    for _ in range(draw(st.sampled_from([0, 1, 1, 2]))):
+        prev = draw(mate_params(proto, t, prev))
+        later.append(prev)
+    case["later"] = later
+    return case
+
+
+def _large_pop(n, runs, t, inbred, seed):
+    genpos = []
+    for rl in runs:
+        genpos.extend(0.05 * k for k in range(rl))
+    return {"n": n, "p": sum(runs), "t": t, "runs": list(runs), "genpos": genpos, "hapseed": seed, "inbred": inbred, "beta": [0.5] * t}
+
+
+def mate_trunc_large_cases(tier):
+    """fixed sizes: candidate-cross counts just below / above 1024 and 2048 for every way of getting there (two-way with
+    and without self-crosses, three-way, four-way), each as a two-use history on one protocol object with a new
+    population of the same size.  The data seeds follow VERIF_SEED."""
+    base = int(os.environ.get("VERIF_SEED", "1")) * 1000
+    quick = [("ohv", 46, 2, True), ("ohv", 45, 2, False), ("ohv", 20, 3, True), ("ohv", 66, 2, True), ("ohv", 12, 4, False),
+             ("ohv", 49, 2, True), ("uc", 46, 2, True)]
+    more = [("ohv", 45, 2, True), ("ohv", 44, 2, False), ("ohv", 19, 3, True), ("ohv", 11, 4, False), ("ohv", 47, 2, True),
+            ("ohv", 64, 2, True), ("ohv", 65, 2, True), ("ohv", 24, 3, True), ("ohv", 18, 3, False), ("ohv", 14, 4, True),
+            ("ohv", 72, 2, False), ("ohv", 1030, 1, True), ("uc", 45, 2, False), ("uc", 50, 2, True)]
+    sizes = quick if tier != "thorough" else quick + more + quick + more
+    out = []
+    for j, (proto, n, nparent, unique) in enumerate(sizes):
+        t = 1 + j % 2
+        runs = [3, 2, 4, 3] if proto == "ohv" else [3, 2]
+        sd = base + 10 * j
+        ncand = ncandidates(n, nparent, unique)
+        first = {"pop": _large_pop(n, runs, t, proto == "uc", sd), "nparent": nparent, "unique": unique, "nmating": 1, "nprogeny": 2,
+                 "lwt": [1.0, 0.5][:t], "obj_wt": 1.0, "upct": 0.1, "ncross": min(ncand // 2, 12 + 9 * (j % 4)),
+                 "perm": [int(v) for v in numpy.random.default_rng(sd + 1).permutation(n)]}
+        second = dict(first)
+        second.update({"pop": _large_pop(n, runs[::-1], t, proto == "uc", sd + 2), "pop_mode": "same_size", "ncross": min(ncand // 2, 30 + j),
+                       "perm": [int(v) for v in numpy.random.default_rng(sd + 3).permutation(n)]})
+        case = dict(first)
+        case.update({"proto": proto, "t": t, "combine": "identity" if t == 1 else "dot", "seed": sd, "later": [second]})
+        out.append(case)
+    return out
+
+
+def _mate_protocol(case):
+    t = case["t"]
+    kw = dict(ntrait=t, unique_parents=case["unique"], ncross=case["ncross"], nparent=case["nparent"], nmating=case["nmating"],
+              nprogeny=case["nprogeny"], nobj=1, obj_wt=case["obj_wt"], soalgo=SortingSubsetOptimizationAlgorithm())
+    if case["combine"] == "sum":
+        kw["obj_trans"] = latent_sum
+    elif case["combine"] == "dot":
+        kw["obj_trans"] = latent_dot
+        kw["obj_trans_kwargs"] = {"latentvec_wt": numpy.array(case["lwt"], dtype=float)}
+    if case["proto"] == "ohv":
+        return OptimalHaploidValueSubsetSelection(nhaploblk=len(case["pop"]["runs"]), **kw)      # one block per chromosome
+    return UsefulnessCriterionSubsetSelection(nself=0, upper_percentile=case["upct"], vmatfcty=DenseTwoWayDHAdditiveGeneticVarianceMatrixFactory(),
+                                              gmapfn=HaldaneMapFunction(), **kw)
+
+
+def _mate_reassign(prot, case, prev, cur):
+    """public setters only, and only for what differs from the previous use (see _trunc_reassign); the number of
+    haplotype blocks follows the number of chromosomes of the population in use"""
+    if cur["ncross"] != prev["ncross"]:
+        prot.ncross = cur["ncross"]
+    if cur["nparent"] != prev["nparent"]:
+        prot.nparent = cur["nparent"]
+    if cur["nmating"] != prev["nmating"] or cur["ncross"] != prev["ncross"]:
+        prot.nmating = cur["nmating"]
+    if cur["nprogeny"] != prev["nprogeny"] or cur["ncross"] != prev["ncross"]:
+        prot.nprogeny = cur["nprogeny"]
+    if cur["unique"] != prev["unique"]:
+        prot.unique_parents = cur["unique"]
+    if cur["lwt"] != prev["lwt"] and case["combine"] == "dot":
+        prot.obj_trans_kwargs = {"latentvec_wt": numpy.array(cur["lwt"], dtype=float)}
+    if cur["obj_wt"] != prev["obj_wt"]:
+        prot.obj_wt = cur["obj_wt"]
+    if case["proto"] == "uc" and cur["upct"] != prev["upct"]:
+        prot.upper_percentile = cur["upct"]
+    if case["proto"] == "ohv" and len(cur["pop"]["runs"]) != len(prev["pop"]["runs"]):
+        prot.nhaploblk = len(cur["pop"]["runs"])
+
+
+def ohv_bounds(pop, crosses):
+    """per candidate cross and trait (lo, hi) of the optimal haploid value from its definition: ploidy x sum over
+    haplotype blocks (here: chromosomes) of the best block value among the phases of the cross's parents"""
+    n, p, t = pop["n"], pop["p"], pop["t"]
+    hap, u = pop["hap"], pop["u"]
+    bounds = [0]
+    for rl in pop["runs"]:
+        bounds.append(bounds[-1] + rl)
+    blk = [[[[math.fsum(hap[(ph * n + i) * p + m] * u[m * t + j] for m in range(bounds[b], bounds[b + 1])) for j in range(t)]
+             for b in range(len(pop["runs"]))] for i in range(n)] for ph in range(2)]
+    tol = [64 * EPS * 2 * math.fsum(abs(u[m * t + j]) for m in range(p)) + 1e-300 for j in range(t)]
+    out = []
+    for c in crosses:
+        row = []
+        for j in range(t):
+            v = 2 * math.fsum(max(blk[ph][i][b][j] for ph in range(2) for i in c) for b in range(len(pop["runs"])))
+            row.append((v - tol[j], v + tol[j]))
+        out.append(row)
+    return out
+
+
+_o = ohv_bounds({"n": 2, "p": 3, "t": 1, "runs": [2, 1], "hap": [1, 0, 0, 0, 1, 1] + [0, 0, 1, 1, 1, 0], "u": [1.0, 2.0, -1.0]}, [(0,), (1,), (0, 1)])
+assert [round(0.5 * (lo + hi), 9) for ((lo, hi),) in _o] == [2.0, 6.0, 6.0], _o
+
+
+def uc_bounds(pop, crosses, upct):
+    """per candidate two-way cross and trait (lo, hi) of the usefulness criterion from its definition: mean genomic value
+    of the two (inbred) parents + selection intensity x s.d. of the genomic values of their doubled-haploid progeny; the
+    variance is the exact variance of the DH gametes of the F1 (pedigree enumerator, Haldane map, no selfing)"""
+    n, p, t = pop["n"], pop["p"], pop["t"]
+    hap = numpy.array(pop["hap"], dtype=float).reshape(2, n, p)
+    u = numpy.array(pop["u"], dtype=float).reshape(p, t)
+    chrom = [c for c, rl in enumerate(pop["runs"]) for _ in range(rl)]
+    rmat = P.rmat_from_genpos(chrom, pop["genpos"])
+    nd = statistics.NormalDist()
+    inten = nd.pdf(nd.inv_cdf(1.0 - upct)) / upct
+    gv = [[pop["beta"][j] + math.fsum((hap[0, i, m] + hap[1, i, m]) * u[m, j] for m in range(p)) for j in range(t)] for i in range(n)]
+    S = [4.0 * float(numpy.abs(u[:, j]).sum()) ** 2 for j in range(t)]
+    out = []
+    for a, b in crosses:
+        var = numpy.diag(P.progeny_cov("two", P.scheme_slots("two", hap, (a, b)), u, rmat, 0))
+        row = []
+        for j in range(t):
+            pm = 0.5 * (gv[a][j] + gv[b][j])
+            tv = 1e-11 * S[j] + 1e-300
+            v = max(float(var[j]), 0.0)
+            slack = 1e-9 * (abs(pm) + inten * math.sqrt(v) + math.sqrt(S[j]) + abs(pop["beta"][j]))
+            row.append((pm + inten * math.sqrt(max(v - tv, 0.0)) - slack, pm + inten * math.sqrt(v + tv) + slack))
+        out.append(row)
+    return out
+
+
+def check_mate_trunc(case, ctx):
+    stages = [case] + list(case.get("later", []))
+    ctx.label("proto=" + case["proto"])
+    ctx.label("combine=" + case["combine"])
+    prots, worlds = {}, {}
+    for k, cur in enumerate(stages):
+        flat = dict(case)
+        flat.update(cur)
+        if k:
+            reuse_labels(ctx, k, stages[k - 1], cur, MATE_SETTINGS)
+        _mate_use(flat, ctx, k, stages[k - 1] if k else None, prots, worlds)
+
+
+def _mate_use(case, ctx, k, prev, prots, worlds):
+    proto, t = case["proto"], case["t"]
+    pop = expand_pop(case["pop"])
+    n, nparent, unique, T = pop["n"], case["nparent"], case["unique"], case["ncross"]
+    cand = [tuple(c) for c in ref_xmap(n, nparent, unique)]
+    bnd = ohv_bounds(pop, cand) if proto == "ohv" else uc_bounds(pop, cand, case["upct"])
+    lw = case["lwt"] if case["combine"] == "dot" else [1.0] * t
+    # single-cross objective the protocol declares (minimised): obj_wt * sum_j lw_j * (-value_cj), as an interval
+    lo, hi = [], []
+    for row in bnd:
+        ends = [sorted((-case["obj_wt"] * lw[j] * row[j][0], -case["obj_wt"] * lw[j] * row[j][1])) for j in range(t)]
+        lo.append(math.fsum(e[0] for e in ends))
+        hi.append(math.fsum(e[1] for e in ends))
+    index = {c: i for i, c in enumerate(cand)}
+    by_hi, by_lo = sorted(hi), sorted(lo)
+    boundary_clear = T < len(cand) and by_hi[T - 1] < by_lo[T]      # the set of the T best candidates is unambiguous
+    distinct = len(set(round(v, 9) for v in lo))
+    ctx.label("unique_parents", unique)
+    ctx.label("self_crosses_are_candidates", not unique and nparent >= 2)
+    ctx.label("nparent=%d" % nparent)
+    ctx.label("candidates>1024", len(cand) > 1024)
+    ctx.label("candidates>2048", len(cand) > 2048)
+    ctx.label("tie_at_truncation_point", T < len(cand) and not boundary_clear)
+    ctx.label("best_set_unambiguous", boundary_clear)
+    ctx.label("negative_obj_wt", case["obj_wt"] < 0)
+    ctx.nontrivial(T < len(cand) and distinct >= 3)
+    use = "" if k == 0 else " (use %d of the same protocol object)" % (k + 1)
+    chosen = {}
+    for tag, order in (("passed", list(range(n))), ("permuted", case["perm"])):
+        if k and case.get("pop_mode") == "same":
+            w = worlds[tag]
+        else:
+            w = worlds[tag] = build_world(pop, order)
+        if k == 0:
+            prot = prots[tag] = _mate_protocol(case)
+        else:
+            prot = prots[tag]
+            _mate_reassign(prot, case, prev, case)
+        misc = {}
+        numpy.random.seed((case["seed"] + k) % (2 ** 32))
+        cfg = prot.select(pgmat=w["pg"], gmat=w["gm"], ptdf=None, bvmat=w["bv"], gpmod=w["gp"], t_cur=k, t_max=5, miscout=misc)
+        ctx.check(isinstance(cfg, SubsetMateSelectionConfiguration), "select.configuration_type", lambda: type(cfg).__name__)
+        rows = check_header(ctx, cfg, w["pg"], T, nparent, case["nmating"], case["nprogeny"], "select")
+        soln = misc.get("sosoln")
+        ctx.check(soln is not None and soln.nsoln >= 1, "select.no_solution_in_miscout", lambda: str(sorted(misc)))
+        dl = [int(e) for e in cfg.xconfig_decn.tolist()]
+        evidence = lambda: "%s population%s: ntaxa=%d nparent=%d unique_parents=%s xconfig %s, xconfig_decn %s, solution decn %s" % (     # noqa: E731
+            tag, use, n, nparent, unique, rows, dl, numpy.asarray(soln.soln_decn).tolist())
+        ctx.check(numpy.array_equal(numpy.asarray(soln.soln_decn[0]), cfg.xconfig_decn), "select.decision_is_not_the_reported_solution", evidence)
+        ctx.check(len(dl) == T and len(set(dl)) == T, "select.decision_repeats_a_member", evidence)
+        got = check_mate_config(ctx, soln, rows, dl, n, nparent, unique, evidence)
+        if not all(0 <= d < len(got) for d in dl):
+            continue
+        # truncation: the chosen crosses (as sets of original individuals) are the T best candidate crosses
+        named = [tuple(sorted(order[e] for e in got[d])) for d in dl]
+        ctx.check(all(c in index for c in named), "mate_trunc.chosen_cross_is_not_a_candidate", evidence)
+        if not all(c in index for c in named):
+            continue                          # (clause already recorded; the runner keeps searching behind it)
+        ix = [index[c] for c in named]
+        inside = max(lo[i] for i in ix)
+        rest = set(range(len(cand))) - set(ix)
+        outside = min((hi[i] for i in rest), default=None)
+        ctx.check(outside is None or inside <= outside, "mate_trunc.chosen_are_not_the_best_by_criterion",
+                  lambda: "%s population%s: %s chose crosses %s with objective values (minimised) %s although unchosen candidate %s has %r (%d candidates, ntaxa=%d "
+                          "nparent=%d unique_parents=%s)" % (tag, use, type(prot).__name__, named[:12], [0.5 * (lo[i] + hi[i]) for i in ix][:12],
+                                                             cand[min(rest, key=lambda i: hi[i])], outside, len(cand), n, nparent, unique))
+        chosen[tag] = sorted(named)
+    if boundary_clear and len(chosen) == 2:
+        ctx.check(chosen["passed"] == chosen["permuted"], "mate_trunc.permutation_changes_selected_crosses",
+                  lambda: "selected %s, after permuting the population by %s: %s%s" % (chosen["passed"][:12], case["perm"], chosen["permuted"][:12], use))
 
 
 # =====================================================================================================================
@@ -678,10 +1225,29 @@ SUBCHECKS = [
     SubCheck("select_trunc", check_select_trunc, trunc_case(), quick=150, thorough=2000, shards_quick=4,
              rule="generated population (3-17 taxa, non-sorted labels, integer (tied) or float values) x (EBV|GEBV subset selection, "
                   "sorting optimiser) x ncross 1-4 x nparent 1-3 x latent combination x obj_wt sign x unscale x a permutation of the "
-                  "population; non-trivial = >= 2 selected, >= 1 rejected, >= 3 distinct criterion values",
-             required_labels=("tie_at_truncation_point", "all_criterion_values_distinct", "source=gebv", "negative_obj_wt", "combine=dot")),
-    SubCheck("select_ga", check_select_ga, ga_case(), quick=120, thorough=1500, shards_quick=4,
+                  "population x 0-2 further uses of the same protocol object after reassigning settings / exchanging the population; "
+                  "non-trivial = >= 2 selected, >= 1 rejected, >= 3 distinct criterion values",
+             required_labels=("tie_at_truncation_point", "all_criterion_values_distinct", "source=gebv", "negative_obj_wt", "combine=dot",
+                              "reuse:use_2", "reuse:use_3", "reuse:changed_unscale", "reuse:population_same", "reuse:population_same_size")),
+    SubCheck("select_ga", check_select_ga, ga_case(), quick=80, thorough=1500, shards_quick=6,
              rule="generated population x 10 protocol/encoding combinations x single/multi-objective x tiny GA budgets x preference "
-                  "transformation (bundled default | harness weighted sum, ndset_wt of either sign); non-trivial = >= 2 table slots and >= 3 taxa",
-             required_labels=("front_size>=2", "preference_has_unique_maximiser", "pref=sum", "pref=default") + tuple("proto=" + p for p in PROTOCOLS)),
+                  "transformation (bundled default | harness weighted sum, ndset_wt of either sign) x 0-2 further uses of the same "
+                  "protocol object after reassigning settings / exchanging the population; non-trivial = >= 2 table slots and >= 3 taxa",
+             required_labels=("front_size>=2", "preference_has_unique_maximiser", "pref=sum", "pref=default", "reuse:use_2", "reuse:changed_unique",
+                              "reuse:population_same", "reuse:population_same_size", "reuse:same_ntaxa_and_nparent_other_setting_changed")
+             + tuple("proto=" + p for p in PROTOCOLS)),
+    SubCheck("mate_trunc", check_mate_trunc, mate_trunc_case(), quick=100, thorough=1500, shards_quick=4,
+             rule="generated phased population (3-9 taxa, 1-3 chromosomes, integer (tied) or float effects; inbred lines for UC) x "
+                  "(OHV nparent 1-3 | UC two-way DH) x unique_parents x ncross 1-6 x latent combination x obj_wt sign x a permutation "
+                  "of the population x 0-2 further uses of the same protocol object after reassigning settings / exchanging the "
+                  "population; sorting optimiser; non-trivial = some candidate cross is rejected and >= 3 distinct criterion values",
+             required_labels=("proto=ohv", "proto=uc", "tie_at_truncation_point", "best_set_unambiguous", "self_crosses_are_candidates",
+                              "negative_obj_wt", "combine=dot", "reuse:use_2", "reuse:use_3", "reuse:changed_unique", "reuse:changed_nparent",
+                              "reuse:population_same", "reuse:population_same_size", "reuse:population_new",
+                              "reuse:same_ntaxa_and_nparent_other_setting_changed")),
+    SubCheck("mate_trunc_large", check_mate_trunc, cases=mate_trunc_large_cases, shards_quick=7, shards_thorough=16,
+             rule="fixed population sizes whose candidate-cross count lies just below / above 1024 and 2048 (two-way with and "
+                  "without self-crosses, three-way, four-way, single-parent), random phased genotypes and effects from VERIF_SEED, "
+                  "two uses of one protocol object; 7 cases in the quick tier, 42 in the thorough tier",
+             required_labels=("candidates>1024", "candidates>2048", "proto=ohv", "proto=uc", "best_set_unambiguous")),
 ]
